@@ -144,6 +144,28 @@ def run(chk, replay=None):
                           {"cmd": "core", "line": ln, "implementation": x[:600], "expected_witness": want,
                            "broken": "a documented builtin type alias is not accepted as a type, or does not denote its documented type"})
 
+    # the documented meaning of the builtin aliases (the table of the book shipped with the source) is the reference
+    doc = os.path.join(REPO, "book", "src", "type_alias.md")
+    documented = {}
+    if os.path.exists(doc):
+        for m in re.finditer(r"^\|\s*`([A-Za-z0-9]+)`\s*\|\s*`([^`]+)`\s*\|", open(doc).read(), re.M):
+            documented[m.group(1)] = m.group(2)
+    dnames = sorted(documented)
+    for n, r in zip(dnames, impl("value", ["(tparse %s)" % quote(documented[n]) for n in dnames])):
+        got = dict(al).get(n)
+        chk.case("doc-alias " + n, sample={"alias": n, "documented": documented[n]})
+        chk.count("alias-documented." + ("same" if got is not None and r == "(ok %s)" % gen.ty_sx(got) else "different"))
+        if n == "ExplicitAmount" and got == ("U", 6) and dict(al).get("Amount1") == ("E", dict(al).get("Confidential1"), ("U", 6)):
+            # the book's row for ExplicitAmount says u256 while its own row for Amount1 (= Either<Confidential1, ExplicitAmount>)
+            # says u64: a slip of the book, not of the code (DESIGN.md §12.7); the Amount1 row is the reference here
+            chk.count("alias-documented.book-slip")
+            continue
+        if got is None or r != "(ok %s)" % gen.ty_sx(got):
+            chk.violation({"class": "jet-not-callable", "what": "builtin alias %s is documented as %s but resolves to %s" % (n, documented[n], gen.ty_src(got) if got else None)},
+                          {"alias": n, "documented": documented[n], "implementation": gen.ty_src(got) if got else None,
+                           "broken": "a builtin type alias does not denote its documented type (book/src/type_alias.md)"})
+    chk.extra["documented_aliases"] = len(documented)
+
     def spell(ty):
         return by_ty.get(ty) or gen.ty_src(ty)
     aprogs = []
